@@ -386,13 +386,16 @@ def build_and_run(k: str, rng, ctx, root: Path, fault, res, phase: str = "both")
 
                 last = call(f)
                 modes = ["rb", "r+b", "a+b", "spooled"] if p.name != "big.vgz" else [rng.choice(["rb", "a+b"])]
+                if phase != "both":
+                    modes = ["rb", "spooled"]  # system-call witness: the harness's own opens would be taken for the library's
                 for hmode in modes if p.exists() else ["rb"]:  # (the harness itself must not create a missing file by opening it "a+b")
                     last = call(f, hmode)
                 return last
             if k == "hyperv":
                 from dissect.hypervisor.descriptor.hyperv import HyperVFile
 
-                hmode = rng.choice(["rb", "r+b", "proxy-writable", "bytesio"])
+                # (under the system-call witness the harness itself must not open evidence for writing: read-only modes there)
+                hmode = rng.choice(["rb", "r+b", "proxy-writable", "bytesio"] if phase == "both" else ["rb", "proxy-writable", "bytesio"])
                 if fault == "ioerror":
                     fh = FlakyFile(root / "vm.vmcx", rng.randrange(1, 9))
                 elif hmode in ("rb", "r+b"):
